@@ -1,8 +1,9 @@
 (* C15  The model hierarchy is consistent across its shared limits (0D Snowing vs isolated Snowflake vial).
-   PARTIAL: the 1D -> 0D thermally-thin limit is asymptotic (oracle); the 2D -> 1D limit is proved for a
+   PARTIAL: the 1D -> 0D thermally-thin limit is proved in its exact discrete form for the cooling stage (the mean of the 1D step
+   follows the 0D law up to a multiple of mean - bottom temperature); the asymptotic rate itself and the later stages stay with the oracle; the 2D -> 1D limit is proved for a
    simultaneous sweep and REFUTED for the in-place sweep of the implementation (known finding F9); see DESIGN.md. *)
 From Coq Require Import Reals ZArith List Bool.
-From Snow Require Import Num NumR Sn1D SnProofs Flake FlakeProofs Sn2D Sn2DProofs Sn2Dto1D.
+From Snow Require Import Num NumR Sn1D SnProofs Flake FlakeProofs Sn2D Sn2DProofs Sn2Dto1D SnThin.
 Import ListNotations.
 Local Open Scope R_scope.
 
@@ -59,3 +60,36 @@ Theorem C15_2D_inplace_sweep_radial_uniformity_refuted :
   ~ runiform 3 3 (cool_step2 Rops P 3 3 rr g Tsh qe).
 Proof. exists Pw, rw, gw, 0, [0; 0; 0]. exact inplace_breaks_uniformity. Qed.
 Print Assumptions C15_2D_inplace_sweep_radial_uniformity_refuted.
+
+(* 1D -> 0D, cooling stage, EXACT for any field of N >= 2 points, any shelf temperature and any constants: the mean of the 1D
+   cooling step minus the 0D step applied to the mean is dt K/(rho cp N dz) * (mean - bottom temperature); the product mass of
+   the 0D model is rho * area * (N dz)  (the implementation sets dz = height/N, so this is mass = rho * volume) *)
+Theorem C15_1D_mean_follows_0D_law_up_to_bottom_offset :
+  forall (P : @p1d R) T0 T1 r Tsh area rho cp,
+  let T := T0 :: T1 :: r in
+  let n := INR (length T) in
+  q_dz P <> 0 -> q_lam0 P <> 0 -> rho * cp <> 0 -> area <> 0 -> q_alpha0 P = q_lam0 P / (cp * rho) ->
+  q_cp0 P = cp -> q_mass P = rho * (area * (n * q_dz P)) ->
+  lsum (cool_step Rops P T Tsh 0) / n - cool0 Rops P area Tsh (lsum T / n)
+  = q_dt P * q_K P / (rho * cp * (n * q_dz P)) * (lsum T / n - T0).
+Proof. intros. apply thin_limit_identity; assumption. Qed.
+Print Assumptions C15_1D_mean_follows_0D_law_up_to_bottom_offset.
+
+(* hence on a uniform field (the thermally thin vial) the two models take the same step *)
+Theorem C15_1D_equals_0D_on_uniform_fields :
+  forall (P : @p1d R) x m Tsh area rho cp,
+  let T := x :: x :: repeat x m in
+  let n := INR (length T) in
+  q_dz P <> 0 -> q_lam0 P <> 0 -> rho * cp <> 0 -> area <> 0 -> q_alpha0 P = q_lam0 P / (cp * rho) ->
+  q_cp0 P = cp -> q_mass P = rho * (area * (n * q_dz P)) ->
+  lsum (cool_step Rops P T Tsh 0) / n = cool0 Rops P area Tsh x.
+Proof. intros. apply (thin_limit_uniform P x m Tsh area rho cp); assumption. Qed.
+Print Assumptions C15_1D_equals_0D_on_uniform_fields.
+
+(* satisfiable hypotheses, non-zero right-hand side (three points, bottom colder than the mean) *)
+Example C15_thin_limit_nonvacuous :
+  let P := MkP1 1 (1/10) 1  1 1  1 1 1 0  1 1  1 1 1 1 1  3 1 1  0 0 1 in
+  q_dz P <> 0 /\ q_lam0 P <> 0 /\ 1 * 1 <> 0 /\ q_alpha0 P = q_lam0 P / (1 * 1) /\ q_cp0 P = 1
+  /\ q_mass P = 1 * (1 * (INR 3 * q_dz P))
+  /\ q_dt P * q_K P / (1 * 1 * (INR 3 * q_dz P)) * (lsum [0; 3; 3] / INR 3 - 0) = 1 / 15.
+Proof. exact thin_limit_nonvacuous. Qed.
